@@ -304,6 +304,28 @@ let stacked (max : int) (qv : value) (clients : value list) (second_done : bool)
   | [], d :: _ -> "DIFF " ^ d
   | [], [] -> "OK"
 
+(* class D: admission into a shared iterator.  ( 4 nreq creatorDead openErr ( class* ) hung ) *)
+let admission (nreq : int) (creator_dead : bool) (open_err : int) (outs : int list) (hung : int) : string =
+  let k = n_of_int 7 in
+  let arrive = List.init nreq (fun i -> AArrive (n_of_int i, k)) in
+  let produce = AProduce (k, (if creator_dead then Some ECancel else None), err_of_code open_err) in
+  let returns = List.init nreq (fun i -> AReturn (n_of_int i, (i > 0 || not creator_dead))) in
+  let res = arun ainit (arrive @ [produce] @ returns) in
+  let rets = List.filteri (fun i _ -> i > nreq) res in
+  let cls x = match x with
+    | ARes (AOk, _, _, _, _) -> 0 | ARes (AErr ECancel, _, _, _, _) -> 2
+    | ARes (AErr EDeadline, _, _, _, _) -> 3 | ARes (AErr EOther, _, _, _, _) -> 4 | _ -> -1 in
+  let model = List.map cls rets in
+  if hung <> 0 then "DIFF a request did not return from the shared-iterator admission (timeout)"
+  else if model <> outs then
+    Printf.sprintf "DIFF admission results model=[%s] impl=[%s] (0 iterator, 2 cancelled, 3 deadline, 4 datastore error)"
+      (String.concat "," (List.map string_of_int model)) (String.concat "," (List.map string_of_int outs))
+  else if List.exists aout_leak rets then
+    Printf.sprintf "KNOWN shared_admission_cancel_leak %d request(s) with a live context were given the creator's context error"
+      (List.length (List.filter aout_leak rets))
+  else if List.for_all aout_ok rets then "OK"
+  else "PROP a request with a live context over a healthy datastore was refused its iterator"
+
 let f _id vs =
   match vs with
   | [I "1"; variant; max; qs; ops; writes; leftover; hung] ->
@@ -311,6 +333,8 @@ let f _id vs =
   | [I "2"; max; q; _script; clients; sd; second; writes; hung] ->
     stacked (as_int max) q (as_list clients) (as_bool sd) (as_list second) (as_list writes) (as_int hung)
   | I "3" :: _ -> "OK"
+  | [I "4"; nreq; cd; oe; outs; hung] ->
+    admission (as_int nreq) (as_bool cd) (as_int oe) (List.map as_int (as_list outs)) (as_int hung)
   | _ -> "DIFF malformed-record"
 
 let () = run_oracle f
